@@ -147,6 +147,10 @@ impl Lexer {
                                     && !(self.possible_search_root && self.raw_at_part_start)))
                             && (c == ' ' || c == ',' || is_paren_char(c) || self.is_op_char(c)) {
                             break;
+                        } else if c == ','
+                            && input_part.chars().nth(self.char_index as usize + 1).is_none() {
+                            // a comma that ends a shell word separates this root from the next one
+                            break;
                         }
                     }
 
